@@ -307,14 +307,64 @@ package interpreter
 // checkOK(v, t): value v is acceptable for declared type t - the meaning of CheckType (trusted, abstract: the recursive
 // conformance relation itself is not under contract)
 //@ spec func checkOK(v interface{}, t ast.Type) bool
-//@ func (*TypeChecker).CheckType
-//@   trusted
+// The conformance relation, one level at a time. checkOK(v, t) is the marker "CheckType accepts v for t" (summary: the
+// function is deterministic and writes nothing - the frame is verified); the postconditions say what acceptance means at
+// the outermost constructor of t, in terms of checkOK of the components - by induction on the (finite) value and type,
+// acceptance is conformance to the declaration:
+//   no declaration, a service or any/object type, a null value: accepted (requiredness is ValidateObjectAgainstTypeDef's)
+//   int: an int64 or an integral finite float64 (JSON numbers), nothing else; float: a float64 or int64; string; bool
+//   T?: exactly when T accepts;  A | B: exactly when some member accepts
+//   [T], List<T>: a list whose every element T accepts;  a named type with a definition: an object that has the
+//   required fields and whose every declared field present is accepted by its declared type
+//@ spec func intOK(v interface{}) bool = typeis(v, int64) || (typeis(v, float64) && feq(v.(float64), libcall(math.Trunc, v.(float64))) && !libcall(math.IsInf, v.(float64), 0))
+//@ spec func svcName(n string) bool = n == "Database" || n == "Redis" || n == "MongoDB" || n == "LLM" || n == "any" || n == "object"
+//@ spec func svcT(t ast.Type) bool = typeis(t, DatabaseType) || typeis(t, RedisType) || typeis(t, MongoDBType) || typeis(t, LLMType) || (typeis(t, NamedType) && svcName(t.(NamedType).Name))
+//@ spec func isListG(t ast.Type) bool = typeis(t, GenericType) && typeis(t.(GenericType).BaseType, NamedType) && t.(GenericType).BaseType.(NamedType).Name == "List"
+//@ spec func rtT(a ast.Type) bool = typeis(a, IntType) || typeis(a, FloatType) || typeis(a, StringType) || typeis(a, BoolType) || (typeis(a, ArrayType) && a.(ArrayType).ElementType == nil) || (typeis(a, NamedType) && a.(NamedType).Name == "object")
+//@ func GetRuntimeType
 //@   modifies nothing
-//@   ensures result == nil ==> checkOK(value, expectedType)
+//@   ensures result == nil || rtT(result)
+//@   ensures typeis(value, int64) == typeis(result, IntType) && typeis(value, float64) == typeis(result, FloatType) && typeis(value, string) == typeis(result, StringType) && typeis(value, bool) == typeis(result, BoolType)
+//@   ensures typeis(value, []interface{}) == typeis(result, ArrayType) && typeis(value, map[string]interface{}) == typeis(result, NamedType)
+// the shallow test, for the type of a runtime value against a declared type that is not a wrapper
+//@ func (*TypeChecker).TypesCompatible
+//@   modifies nothing
+//@   ensures rtT(actual) && typeis(expected, IntType) ==> result == typeis(actual, IntType)
+//@   ensures rtT(actual) && typeis(expected, FloatType) ==> result == (typeis(actual, FloatType) || typeis(actual, IntType))
+//@   ensures rtT(actual) && typeis(expected, StringType) ==> result == typeis(actual, StringType)
+//@   ensures rtT(actual) && typeis(expected, BoolType) ==> result == typeis(actual, BoolType)
+//@   ensures rtT(actual) && typeis(expected, ArrayType) ==> result == typeis(actual, ArrayType)
+//@   ensures rtT(actual) && typeis(expected, GenericType) ==> result == (typeis(actual, ArrayType) && isListG(expected))
+//@   ensures rtT(actual) && typeis(expected, NamedType) ==> result == (typeis(actual, NamedType) || (typeis(actual, ArrayType) && (expected.(NamedType).Name == "List" || expected.(NamedType).Name == "any" || expected.(NamedType).Name == "object")))
+// (error texts: TypeToString only reads)
+//@ func (*TypeChecker).TypeToString
+//@   modifies nothing
+//@ func (*TypeChecker).CheckType
+//@   modifies nothing
+//@   ensures expectedType == nil || svcT(expectedType) || value == nil ==> result == nil
+//@   ensures value != nil && typeis(expectedType, IntType) ==> (result == nil) == intOK(value)
+//@   ensures value != nil && typeis(expectedType, FloatType) ==> (result == nil) == (typeis(value, float64) || typeis(value, int64))
+//@   ensures value != nil && typeis(expectedType, StringType) ==> (result == nil) == typeis(value, string)
+//@   ensures value != nil && typeis(expectedType, BoolType) ==> (result == nil) == typeis(value, bool)
+//@   ensures value != nil && typeis(expectedType, OptionalType) ==> (result == nil) == checkOK(value, expectedType.(OptionalType).InnerType)
+//@   ensures value != nil && typeis(expectedType, UnionType) ==> (result == nil) == exists(k, 0, len(expectedType.(UnionType).Types), checkOK(value, expectedType.(UnionType).Types[k]))
+//@   ensures value != nil && result == nil && typeis(expectedType, ArrayType) ==> typeis(value, []interface{}) && (expectedType.(ArrayType).ElementType != nil ==> forall(j, 0, len(value.([]interface{})), checkOK(value.([]interface{})[j], expectedType.(ArrayType).ElementType)))
+//@   ensures value != nil && result == nil && isListG(expectedType) && len(expectedType.(GenericType).TypeArgs) == 1 && expectedType.(GenericType).TypeArgs[0] != nil ==> typeis(value, []interface{}) && forall(j, 0, len(value.([]interface{})), checkOK(value.([]interface{})[j], expectedType.(GenericType).TypeArgs[0]))
+//@   ensures value != nil && result == nil && typeis(expectedType, NamedType) && !svcName(expectedType.(NamedType).Name) && expectedType.(NamedType).Name != "List" && has(tc.typeDefs, expectedType.(NamedType).Name) ==> typeis(value, map[string]interface{}) && reqOK(value.(map[string]interface{}), tc.typeDefs[expectedType.(NamedType).Name]) && forall(n, string, has(value.(map[string]interface{}), n) ==> fieldOK(value.(map[string]interface{}), tc.typeDefs[expectedType.(NamedType).Name], n))
+//@   loop 1 invariant 0 <= rangeidx && forall(k, 0, rangeidx, !checkOK(value, expectedType.(UnionType).Types[k]))
+//@   loop 2 invariant 0 <= rangeidx && forall(j, 0, rangeidx, checkOK(value.([]interface{})[j], local(elementType)))
+//@   summary (result == nil) == checkOK(value, expectedType)
+// fieldOK(obj, td, n): the field n of the object either is not declared by td (extra fields are allowed) or is accepted by
+// the type a declaration of that name gives it
+//@ spec func fieldOK(obj map[string]interface{}, td ast.TypeDef, n string) bool = forall(k, 0, len(td.Fields), td.Fields[k].Name != n) || exists(k, 0, len(td.Fields), td.Fields[k].Name == n && checkOK(obj[n], td.Fields[k].TypeAnnotation))
 //@ func (*TypeChecker).ValidateObjectAgainstTypeDef
 //@   modifies nothing
 //@   loop 1 invariant 0 <= rangeidx && forall(k, 0, rangeidx, typeDef.Fields[k].Required && typeDef.Fields[k].Default == nil ==> has(obj, typeDef.Fields[k].Name) && obj[typeDef.Fields[k].Name] != nil)
+//@   loop 2 invariant reqOK(obj, typeDef) && forall(n, string, visited(1, n) ==> fieldOK(obj, typeDef, n))
+//@   loop 3 invariant 0 <= rangeidx && forall(k, 0, rangeidx, typeDef.Fields[k].Name != fieldName)
+//@   assertat "if err := tc.CheckType(fieldValue, fieldDef.TypeAnnotation); err != nil {" fieldValue == obj[fieldName] && exists(k, 0, len(typeDef.Fields), typeDef.Fields[k].Name == fieldName && fieldDef.TypeAnnotation == typeDef.Fields[k].TypeAnnotation)
 //@   ensures result == nil ==> reqOK(obj, typeDef)
+//@   ensures result == nil ==> forall(n, string, has(obj, n) ==> fieldOK(obj, typeDef, n))
 // (syntax-tree nodes are never written after the parser has built them: structural scan types-frozen)
 //@ decl frozen ast.Field
 // defaults are applied exactly to absent fields: the result is a new object that keeps every field of
